@@ -200,7 +200,19 @@ func (w *Wallet) txToOutputs(outputs []*wire.TxOut,
 			}
 
 			var eligibleSelectedUtxo []wtxmgr.Credit
+			seenSelected := make(
+				map[wire.OutPoint]struct{}, len(selectedUtxos),
+			)
 			for _, outpoint := range selectedUtxos {
+				// An output can only be spent once per
+				// transaction.
+				if _, dup := seenSelected[outpoint]; dup {
+					return fmt.Errorf("selected outpoint "+
+						"listed more than once: %v",
+						outpoint)
+				}
+				seenSelected[outpoint] = struct{}{}
+
 				e, ok := eligibleByOutpoint[outpoint]
 
 				if !ok {
